@@ -85,6 +85,15 @@ func TestDriver(t *testing.T) {
 			t.Fatal(err)
 		}
 		for _, raw := range raws {
+			var bm buildMirror
+			if err := json.Unmarshal(raw, &bm); err == nil && bm.Build != nil {
+				c, err := runBuild(bm.Build)
+				if err != nil {
+					t.Fatal(err)
+				}
+				_ = w.Put(c)
+				continue
+			}
 			var m execMirror
 			if err := json.Unmarshal(raw, &m); err != nil {
 				t.Fatal(err)
@@ -97,6 +106,16 @@ func TestDriver(t *testing.T) {
 		return
 	}
 	r := env.Rand()
+	if env.Prop == "C02" {
+		for i := 0; i < env.N; i++ {
+			c, err := runBuild(genBuildScenario(r))
+			if err != nil {
+				t.Fatalf("harness error: %v", err)
+			}
+			_ = w.Put(c)
+		}
+		return
+	}
 	for i := 0; i < env.N; i++ {
 		_ = w.Put(runExec(t, genScenario(r, env.Prop), env.Prop))
 	}
